@@ -1,5 +1,5 @@
 ------------------------------ MODULE FoDriverMC ------------------------------
-EXTENDS FoDriver
+EXTENDS FoDriver, TLC
 A1 == <<[name |-> "a.fo", foi |-> FALSE]>>
 A3 == <<[name |-> "p.foi", foi |-> TRUE], [name |-> "a.fo", foi |-> FALSE], [name |-> "b.fo", foi |-> FALSE]>>
 =============================================================================
